@@ -2,6 +2,7 @@ import KdVerif.Model.ContainerV3
 import KdVerif.Props.C01
 import KdVerif.Proofs.ContainerV2
 import KdVerif.Proofs.Dict
+import KdVerif.Proofs.EndToEnd
 /-
   C02 — a version-2 dump yields exactly its records, in order, and its thread map.
 
@@ -172,5 +173,91 @@ example :
 
 example : (threadTables exFile.threads).threadsPids = [(7, 200), (8, 100)] ∧
     (threadTables exFile.threads).pidsNames = [(100, [0xc3, 0xa9]), (200, [])] := by decide
+
+/-! ### end to end: what the trace layer and the line builder receive from an encoded file (`Model/EndToEnd.lean`) -/
+
+/-- The file's thread map as the trace layer receives it: `(tid, pid, name)` in file order, the name bytes decoded
+    (`CString('utf8')`). -/
+def fileThreadMap (f : V2File) : Declared.ThreadMap :=
+  f.threads.map fun t => (t.tid, t.pid, EndToEnd.utf8 t.name)
+
+theorem threadMapOf_entries (f : V2File) : EndToEnd.threadMapOf (f.threads.map toEntry) = fileThreadMap f := by
+  simp only [EndToEnd.threadMapOf, fileThreadMap, List.map_map]
+  rfl
+
+/-- **C02 composed with C01, at the entry of the trace layer (partial: K1 hypothesis).**  For every well-formed v2 file
+    — any thread map, any padding length, any list of 64-byte records — whose first record does not begin with a zero
+    byte: what `PyKdebugParser.traces` / `formatted_traces` work on is exactly the file's thread map (every entry, in
+    file order) and exactly the decodings of the file's records (C01's `specDecode`, in file order), and the container
+    reader ends without an exception.
+
+    Full statement without `FirstByteNonZero` is false for the code as it is (known finding K1, `v2_pad_eats_record`);
+    the thread map half needs no such hypothesis: `e2e_threadmap_of_encoded`. -/
+theorem e2e_dump_of_encoded (f : V2File) (wf : f.WF) (h0 : FirstByteNonZero f) :
+    EndToEnd.dumpOf (encodeV2 f) =
+      .ok ({ threadMap := EndToEnd.threadMapOf (f.threads.map toEntry), events := f.recs.map specDecode }, none) :=
+  EndToEnd.dumpOf_encoded f wf h0
+
+/-- the same with the thread map written out. -/
+theorem e2e_dump_of_encoded' (f : V2File) (wf : f.WF) (h0 : FirstByteNonZero f) :
+    EndToEnd.dumpOf (encodeV2 f) = .ok ({ threadMap := fileThreadMap f, events := f.recs.map specDecode }, none) := by
+  rw [e2e_dump_of_encoded f wf h0, threadMapOf_entries]
+
+/-- For every well-formed v2 file (NO first-byte hypothesis) the dump is readable and the trace layer receives the
+    file's thread map. -/
+theorem e2e_threadmap_of_encoded (f : V2File) (wf : f.WF) :
+    ∃ d c, EndToEnd.dumpOf (encodeV2 f) = .ok (d, c) ∧ d.threadMap = fileThreadMap f := by
+  obtain ⟨d, c, h, htm⟩ := EndToEnd.dumpOf_encoded_threadMap f wf
+  exact ⟨d, c, h, by rw [htm, threadMapOf_entries]⟩
+
+/-- **The lines of an encoded file.**  Under the same hypotheses the lines `formatted_traces` yields for the file's bytes
+    are the lines of the line builder over `traces` of (the file's thread map, the decodings of the file's records), and
+    the iteration ends with the exception of the trace layer only (rendering or decoding) — the container contributes
+    neither an event nor an exception of its own. -/
+theorem e2e_lines_of_encoded (env : Trace.Env) (obj : TracePipeline.Obj) (sh : Format.Show) (f : V2File) (wf : f.WF)
+    (h0 : FirstByteNonZero f) :
+    let res := (TracePipeline.traces env obj
+      { threadMap := fileThreadMap f, events := f.recs.map specDecode }).1
+    EndToEnd.formattedTraces env obj sh (encodeV2 f) =
+      ((EndToEnd.formatAll sh res.traces).1,
+       match (EndToEnd.formatAll sh res.traces).2 with
+       | some e => some e
+       | none => res.err) := by
+  intro res
+  have h := e2e_dump_of_encoded' f wf h0
+  have h1 := EndToEnd.formattedTraces_lines env obj sh _ _ _ h
+  have h2 := EndToEnd.formattedTraces_err env obj sh _ _ _ h
+  refine Prod.ext h1 ?_
+  rw [h2]
+  show (match (EndToEnd.formatAll sh res.traces).2 with
+        | some e => some e
+        | none => match res.err with
+          | some e => some e
+          | none => none) = _
+  cases (EndToEnd.formatAll sh res.traces).2 <;> cases res.err <;> rfl
+
+/-! #### non-vacuity -/
+
+/-- the example file of `Proofs/EndToEnd` (two entries for thread 7, four bytes of padding, six records) meets the
+    hypotheses; its six lines. -/
+example :
+    EndToEnd.dumpOf (encodeV2 EndToEnd.exFile) =
+      .ok ({ threadMap := fileThreadMap EndToEnd.exFile, events := EndToEnd.exFile.recs.map specDecode }, none) ∧
+    fileThreadMap EndToEnd.exFile = [(7, 41, "old"), (7, 42, "launchd")] :=
+  ⟨e2e_dump_of_encoded' _ EndToEnd.exFile_wf EndToEnd.exFile_first, by decide +kernel⟩
+
+example : EndToEnd.formattedTraces EndToEnd.exEnv {} {} (encodeV2 EndToEnd.exFile) =
+    (["1 launchd(42)                       Process exit name: x",
+      "2 launchd(42)                       New thread 9 of parent: 50",
+      "3 (50)                              Process exit name: y",
+      "4 launchd(42)                       New thread of parent: new",
+      "5 new(50)                           Process exit name: z",
+      "6 Error: tid 8                      Process exit name: {"], none) := by
+  decide +kernel
+
+/-- K1 end to end: the file `k1File2` (first record all zeros) is well formed, the dump is readable, the thread map is
+    right, but the trace layer receives ONE event instead of two. -/
+example : (EndToEnd.dumpOf (encodeV2 k1File2)).toOption.map (fun p => p.1.events.length) = some 1 := by
+  decide +kernel
 
 end KdVerif.C02
